@@ -1,6 +1,6 @@
 """C19 validator accepts every rule-conforming file and flags every hard-rule breach.
 Spec: NixValid.tla (rule table: breach -> hard/soft and the entity that must carry the error; Sound, SoftNeverError, Complete checked
-by TLC over every breach subset).  Binding: for every subset the harness builds the conforming base file (arrays of rank 1-2 with all four
+by TLC over every breach subset; HistoryFree, RepairRestores over in-place edit histories).  Binding: for every subset the harness builds the conforming base file (arrays of rank 1-2 with all four
 descriptor kinds, tag, multi-tag, features, section + property; data lengths vary with the seed), injects the breaches through the API or -
 where the API refuses them - through the HDF5 C API, runs valid::validate on every entity and File::validate, and compares per entity
 'has at least one error' (message texts are not compared)."""
@@ -17,16 +17,21 @@ def run(chk, replay=None):
     seeds = range(3) if chk.thorough else [chk.seed]
     for sd in seeds:
         rp = vcheck.Replayer(binary, seed=sd, chunk=20)
-        run_ = vcheck.TlcRun('NixValid', 'MC_NixValid_%s.cfg' % ('t' if chk.thorough else 'q'), workers=8, coverage=False)
-        recs, verdicts = rp.run(r for r in run_)
-        run_.require_ok()
-        if run_.lines == 0:
-            raise vcheck.MachineryError('no case emitted by NixValid')
-        chk.note_tlc(run_)
-        chk.absorb(recs, verdicts, rp)
+        for cfg in ('', 'hist_'):
+            if cfg == 'hist_' and sd != list(seeds)[0]:
+                continue
+            run_ = vcheck.TlcRun('NixValid', 'MC_NixValid_%s%s.cfg' % (cfg, 't' if chk.thorough else 'q'), workers=8, coverage=False)
+            recs, verdicts = rp.run(r for r in run_)
+            run_.require_ok()
+            if run_.lines == 0:
+                raise vcheck.MachineryError('no case emitted by NixValid')
+            chk.note_tlc(run_)
+            chk.absorb(recs, verdicts, rp)
     chk.exhaustive = True
     chk.traces_validated = len(chk.distinct)
-    chk.rule = ('one case per subset of <= %d breaches out of 15 hard + 6 soft rule breaches injected at specific entities of the base file (all subsets, '
-                'incompatible pairs excluded); evaluations = entity validations; compared: per entity "has an error", and File::validate().hasErrors()') % (4 if chk.thorough else 3)
+    chk.rule = ('(1) one case per subset of <= %d breaches out of 17 hard + 6 soft rule breaches injected at specific entities of the base file (all subsets, '
+                'incompatible pairs excluded); (2) one case per Validate transition of every history of <= %d in-place steps (inject / repair / reopen / validate, '
+                'same process, same entity ids) - the verdict must depend on the breaches present only; evaluations = entity validations; compared: per entity '
+                '"has an error", and File::validate().hasErrors(), at every validation of the history') % ((4, 5) if chk.thorough else (3, 4))
     chk.assumptions += ['one base-file shape (3 length variants by seed); message texts and warnings are not compared, only the presence of errors per entity',
                         'trusted: TLC, harness/h_valid.cpp, HDF5 C API for the breaches the API refuses (unsorted ticks, interval <= 0, missing positions)']
